@@ -1,5 +1,129 @@
-(** C07 -- property file (set operations).  PRELIMINARY *)
-From SF Require Import C07.SetModel.
+(** C07 -- property file (set operations).  Contains only: the instantiation obligations on the facts
+    regenerated from /repo, the full statement, the proved statements (closed by [exact]), non-vacuity
+    examples, the refutation witness of the full statement, and Print Assumptions. *)
+From Coq Require Import Permutation Arith Lia.
+From SF Require Import C07.SetModel C07.SetProof C07.ByName Model.ChainProof.
 From Gen Require Import C01Facts C07Facts.
+Open Scope nat_scope.
+
+(** * instantiation obligations (re-checked against /repo's current source on every run) *)
+Lemma gen_cfg_ok : cfg_ok gen_cfg = true.
+Proof. vm_compute. reflexivity. Qed.
+
+Lemma gen_limit_ok : limit_ok gen_cfg.
+Proof. intros a b Ha Hb. unfold gen_cfg, C01Facts.limit_merge; cbn [Chain.limit_merge]. lia. Qed.
+
+(** every method builds the operator whose SQL multiplicity law is PySpark's law for that method, its
+    decorator leaves the DataFrame in a state the clause-ordering rule knows, and the receiver is the first
+    operand of the operator node *)
 Lemma gen_facts_ok : facts_ok gen_cfg gen_facts = true.
 Proof. vm_compute. reflexivity. Qed.
+
+(** * the multiset laws of the operators the methods really build: all multiplicities, rows with NULLs *)
+Theorem C07_laws : forall (a b : list row) (r : row),
+  count (bagop (sql_sem (flags MUnion)) a b) r = count a r + count b r
+  /\ count (bagop (sql_sem (flags MUnionAll)) a b) r = count a r + count b r
+  /\ count (bagop (sql_sem (flags MUnionByName)) a b) r = count a r + count b r
+  /\ count (bagop (sql_sem (flags MIntersect)) a b) r = (if (0 <? count a r) && (0 <? count b r) then 1 else 0)
+  /\ count (bagop (sql_sem (flags MIntersectAll)) a b) r = Nat.min (count a r) (count b r)
+  /\ count (bagop (sql_sem (flags MExceptAll)) a b) r = count a r - count b r.
+Proof.
+  intros a b r.
+  rewrite !(facts_sem gen_cfg gen_facts gen_facts_ok : forall m, sql_sem (flags m) = spark_sem m).
+  rewrite !bagop_law. repeat split; reflexivity.
+Qed.
+Print Assumptions C07_laws.
+
+(** NULL = NULL in all of them: a row of NULLs is counted like any other row *)
+Example C07_null_rows_are_equal :
+  count (bagop (sql_sem (flags MIntersectAll)) [[VNull; VNull]; [VNull; VNull]; [VNull; VInt 1]] [[VNull; VNull]; [VNull; VNull]; [VNull; VNull]]) [VNull; VNull] = 2
+  /\ count (bagop (sql_sem (flags MExceptAll)) [[VNull; VNull]; [VNull; VNull]; [VNull; VInt 1]] [[VNull; VNull]]) [VNull; VNull] = 1.
+Proof. split; vm_compute; reflexivity. Qed.
+
+(** * the property at full strength: every tree of set operations and ordinary steps, all inputs *)
+Definition C07_full : Prop :=
+  forall t inputs F, inputs_ok inputs -> spark_eval inputs t = Some F ->
+    exists G, sql_eval gen_cfg gen_facts inputs t = Some G /\ cols G = cols F /\ Permutation (rows G) (rows F).
+
+(** what is proved: the same statement on the decidable domain [tree_dom] (C01's domain for the ordinary
+    steps; no LIMIT inside the tree) for every tree that sqlframe compiles at all ([compiles]) *)
+Definition compiles (inputs : list frame) (t : tree) : bool :=
+  match compile gen_cfg gen_facts (map cols inputs) t 0 with Some _ => true | None => false end.
+
+Theorem C07_partial :
+  forall t inputs F, inputs_ok inputs ->
+    tree_dom gen_cfg gen_facts (map cols inputs) t = true -> compiles inputs t = true ->
+    spark_eval inputs t = Some F ->
+    exists G, sql_eval gen_cfg gen_facts inputs t = Some G /\ cols G = cols F /\ Permutation (rows G) (rows F).
+Proof.
+  intros t inputs F Hin Hd Hc Hs.
+  apply (sql_eval_correct gen_cfg gen_facts gen_cfg_ok gen_limit_ok gen_facts_ok inputs t F Hin Hd Hs).
+  unfold compiles in Hc. destruct (compile _ _ _ _ _); [discriminate | discriminate].
+Qed.
+Print Assumptions C07_partial.
+
+(** the same for the WITH list of any DataFrame state the compiler reaches (any uuid counter) *)
+Theorem C07_with_list :
+  forall inputs t u s u' F, inputs_ok inputs ->
+    compile gen_cfg gen_facts (map cols inputs) t u = Some (s, u') ->
+    tree_dom gen_cfg gen_facts (map cols inputs) t = true -> spark_eval inputs t = Some F ->
+    exists G, eval_query inputs (query_of s) = Some G /\ cols G = cols F /\ Permutation (rows G) (rows F).
+Proof. exact (compile_correct gen_cfg gen_facts gen_cfg_ok gen_limit_ok gen_facts_ok). Qed.
+Print Assumptions C07_with_list.
+
+(** unionByName: the other side's column order is irrelevant; missing columns are NULL; names from the left *)
+Theorem C07_unionByName_perm : forall a b p,
+  NoDup (cols a) -> cols b = cols a -> wf_frame b -> is_perm p (List.length (cols a)) ->
+  by_name false a (permute_frame p b) = Some (mkFrame (cols a) (rows a ++ rows b)).
+Proof. exact unionByName_perm. Qed.
+Print Assumptions C07_unionByName_perm.
+
+Theorem C07_unionByName_missing : forall a b,
+  NoDup (cols a) -> wf_frame a ->
+  let extra := only_in (cols b) (cols a) in
+  by_name true a b = Some (mkFrame (cols a ++ extra)
+                                   (map (fun r => r ++ repeat VNull (List.length extra)) (rows a) ++ realign (cols a ++ extra) b))
+  /\ (forall r c, ~ In c (cols b) -> lookup_or_null (cols b) r c = VNull)
+  /\ (forall r c v, lookup (cols b) r c = Some v -> lookup_or_null (cols b) r c = v).
+Proof. exact unionByName_missing. Qed.
+Print Assumptions C07_unionByName_missing.
+
+Theorem C07_names_from_left : forall c L R F,
+  spark_setop c L R = Some F ->
+  match c with CUnionByName true => cols F = cols L ++ only_in (cols R) (cols L) | _ => cols F = cols L end.
+Proof. exact names_from_left. Qed.
+
+(** * non-vacuity: nested, common-ancestor and by-name trees are in the domain and compile *)
+Definition ex_inputs : list frame :=
+  [mkFrame ["a"; "b"]%string [[VInt 1; VInt 2]; [VInt 1; VInt 2]; [VNull; VInt 3]; [VNull; VNull]];
+   mkFrame ["b"; "c"]%string [[VInt 2; VInt 7]; [VNull; VNull]]].
+Definition ex_tree : tree :=
+  TOps [OWhere (EIsNull (ECol "a")); ODistinct]
+    (TSet CExceptAll
+       (TSet (CUnionByName true) (TSet CIntersectAll (TOps [OWhere (EIsNull (ECol "a"))] (TIn 0)) (TIn 0)) (TIn 1))
+       (TSet (CUnionByName true) (TOps [OSelect [(ECol "b", "b"%string); (ECol "a", "a"%string)]] (TIn 0)) (TIn 1))).
+Example C07_domain_nonempty :
+  tree_dom gen_cfg gen_facts (map cols ex_inputs) ex_tree = true /\ compiles ex_inputs ex_tree = true
+  /\ option_map cols (spark_eval ex_inputs ex_tree) = Some ["a"; "b"; "c"]%string.
+Proof. vm_compute. repeat split; reflexivity. Qed.
+
+(** * the full statement is false of the faithful model: when both operands derive from the same
+    set-operation result (same WITH list, same text, hence the same CTE name), _add_ctes_to_expression
+    calls .where on a Union node -- sqlframe raises where PySpark answers *)
+Theorem C07_refuted_1 :
+  exists t inputs F, inputs_ok inputs /\ spark_eval inputs t = Some F
+    /\ tree_dom gen_cfg gen_facts (map cols inputs) t = true
+    /\ sql_eval gen_cfg gen_facts inputs t = None.
+Proof.
+  exists (TSet CUnion (TSet CUnion (TIn 0) (TIn 1)) (TSet CUnion (TIn 0) (TIn 1))).
+  exists [mkFrame ["a"]%string [[VInt 1]]; mkFrame ["a"]%string [[VNull]]].
+  eexists. split; [|split; [vm_compute; reflexivity | split; vm_compute; reflexivity]].
+  intros fr [<-|[<-|[]]]; (split; [intros r [<-|[]]; reflexivity | repeat constructor; simpl; tauto]).
+Qed.
+Print Assumptions C07_refuted_1.
+
+Corollary C07_full_is_false : ~ C07_full.
+Proof.
+  intro H. destruct C07_refuted_1 as (t & inputs & F & Hin & Hs & _ & Hn).
+  destruct (H t inputs F Hin Hs) as (G & HG & _). congruence.
+Qed.
